@@ -59,12 +59,12 @@ ANCHORS = [
     "txtorcon.torcontrolprotocol:TorControlProtocol.set_conf",
 ]
 FLOORS = {
-    "quick": {"evaluations": 600, "setconf_lines_decoded": 1000, "quiet_checks": 2500, "saves_rejected": 150,
-              "reads_compared": 1500, "second_save_checks": 600, "midack_edits": 100, "inplace_ops": 600,
-              "reach:txtorcon.torconfig:TorConfig.save": 2000,
-              "reach:txtorcon.torconfig:TorConfig.mark_unsaved": 700,
-              "reach:txtorcon.torconfig:TorConfig._save_completed": 800,
-              "reach:txtorcon.torcontrolprotocol:TorControlProtocol.set_conf": 1000},
+    "quick": {"evaluations": 450, "setconf_lines_decoded": 800, "quiet_checks": 2000, "saves_rejected": 130,
+              "reads_compared": 1400, "second_save_checks": 600, "midack_edits": 80, "inplace_ops": 500,
+              "reach:txtorcon.torconfig:TorConfig.save": 1500,
+              "reach:txtorcon.torconfig:TorConfig.mark_unsaved": 500,
+              "reach:txtorcon.torconfig:TorConfig._save_completed": 650,
+              "reach:txtorcon.torcontrolprotocol:TorControlProtocol.set_conf": 800},
     "thorough": {"evaluations": 9000, "setconf_lines_decoded": 15000, "quiet_checks": 40000, "saves_rejected": 2500,
                  "reads_compared": 25000, "second_save_checks": 10000, "midack_edits": 1500, "inplace_ops": 9000,
                  "reach:txtorcon.torconfig:TorConfig.save": 30000,
@@ -655,6 +655,6 @@ def replay(case, rec):
 
 def plan(tier, seed):
     if tier == "quick":
-        return [{"mode": "seq", "n": 420} for _ in range(13)] + [{"mode": "midack", "n": 420} for _ in range(3)]
+        return [{"mode": "seq", "n": 300} for _ in range(13)] + [{"mode": "midack", "n": 300} for _ in range(3)]
     return [{"mode": "seq", "n": 3200, "timeout_s": 3000} for _ in range(26)] + \
            [{"mode": "midack", "n": 3200, "timeout_s": 3000} for _ in range(6)]
